@@ -22,7 +22,7 @@ RULE = ('one evaluation = one database x one hash seed (a full battery transcrip
 ASSUMPTIONS = ['the elements of a returned set carry no order (compared sorted); lists and mappings keep theirs',
                '"whatever the hash seed" is decided on a finite sample of seeds']
 FLOORS = {'*': {'transcript.lines': 20000, 'seed.pairs.compared': 10}}
-N = {'quick': 6, 'thorough': 60}
+N = {'quick': 4, 'thorough': 60}
 SEEDS = {'quick': [0, 1, 2, 3], 'thorough': [0, 1, 2, 3, 4, 5, 6, 7, 11, 42, 1000, 4294967295]}
 TIMEOUT = {'quick': 1500, 'thorough': 6 * 3600}
 
@@ -65,7 +65,23 @@ def run_case(case, rec):
         p11 = doc.Profile(max_entries=4, max_synsets=4, dup_rel=0.3, p_rel=0.8, idstyle='prefixed', ili='shared')
         base = doc.gen_lexicon(r, '1.1', 'z', '1', p11)
         ext = doc.gen_lexicon(r, '1.1', 'zx', '1', p11, base=base)
-        res10 = {'lmf_version': '1.0', 'lexicons': lexs + [gen10]}
+        # several entries that one inflected query maps to (axes -> axe, ax, axis; leaves -> leaf, leave; ...)
+        morph = {'id': 'mo', 'label': 'morph', 'language': 'en', 'email': 'e', 'license': 'l', 'version': '1', 'meta': None,
+                 'synsets': [{'id': f'mo-ss{i}', 'ili': '', 'partOfSpeech': p_, 'meta': None} for i, p_ in enumerate('nnnnvvn')],
+                 'entries': [{'id': f'mo-e{i}', 'meta': None, 'lemma': {'writtenForm': wf, 'partOfSpeech': p_},
+                              'senses': [{'id': f'mo-s{i}', 'synset': f'mo-ss{i}', 'meta': None}]}
+                             for i, (wf, p_) in enumerate([('axe', 'n'), ('ax', 'n'), ('axis', 'n'), ('leaf', 'n'), ('leave', 'v'),
+                                                           ('ax', 'v'), ('leave', 'n')])]}
+        res10 = {'lmf_version': '1.0', 'lexicons': lexs + [gen10, morph]}
+        # an expand pair: 'ge' has the hypernym structure, 'gt' has the same concepts (ILIs) but no relations of its own,
+        # so what gt's synsets inherit depends on the Wordnet's expand setting only
+        ge = graphs.lexicon_for(8, tie, lambda j: 'n', None)
+        gt = graphs.lexicon_for(9, (tie[0], []), lambda j: 'n', None)
+        for lx_ in (ge, gt):
+            for j, ss in enumerate(lx_['synsets']):
+                ss['ili'] = f'i9{j}'
+        gt['requires'] = [{'id': 'g8', 'version': '1'}]
+        res_exp = {'lmf_version': '1.1', 'lexicons': [ge, gt]}
         res11 = {'lmf_version': '1.1', 'lexicons': [base]}
         resx = {'lmf_version': '1.1', 'lexicons': [ext]}
         with env.FreshDB(keep=True) as fdb:
@@ -73,6 +89,7 @@ def run_case(case, rec):
             wnio.add(f10)
             wnio.add(wnio.write_resource(res11, work, random.Random(2), name='r11.xml'))
             wnio.add(wnio.write_resource(resx, work, random.Random(3), name='rx.xml'))
+            wnio.add(wnio.write_resource(res_exp, work, random.Random(4), name='rexp.xml'))
             dbdir = fdb.dir
         outs = {}
         for hs in case['hashseeds']:
@@ -81,7 +98,9 @@ def run_case(case, rec):
             out = work / f'out-{hs}.json'
             e = dict(os.environ)
             e['PYTHONHASHSEED'] = str(hs)
-            p = subprocess.run([sys.executable, '-m', 'vf.battery', str(cp), str(out), str(f10)], env=e, capture_output=True,
+            order = 'reverse-first' if case['hashseeds'].index(hs) % 2 else 'forward-first'
+            rec.event('process.' + order)
+            p = subprocess.run([sys.executable, '-m', 'vf.battery', str(cp), str(out), str(f10), order], env=e, capture_output=True,
                                text=True, timeout=1200)
             if p.returncode != 0 or not out.exists():
                 if 'wn/' in p.stderr and 'Traceback' in p.stderr:
